@@ -101,7 +101,12 @@ def thermal_population_boltzmann(cx, n, start, sub):
     _is_valid_state(cx, "rho", rho)
     zero_T = (T == 0)
     if (cx.sym and bool(zero_T)) or (not cx.sym and T == 0):
-        cx.prove_eq("zeroT", rho[start, start], 1)
+        # zero-temperature limit of the Boltzmann state: everything in a level of lowest energy
+        for i in range(start, n):
+            occupied = (rho[i, i] != 0)
+            if (cx.sym and bool(occupied)) or (not cx.sym and occupied):
+                for j in range(start, n):
+                    cx.prove("zeroT_lowest[%d,%d]" % (i, j), eff[i] <= eff[j])
         return
     for i in range(start):
         cx.prove_eq("below_start[%d]" % i, rho[i, i], 0)
@@ -204,15 +209,16 @@ def aggregate_states(cx, nmol, cond, limit):
 
 
 @harness("C14", "weak_coupling_basis",
-         quick=[dict(nmol=2)], thorough=[dict(nmol=2), dict(nmol=3)],
+         quick=[dict(nmol=2, limit="weak_coupling"), dict(nmol=2, limit="strong_coupling")],
+         thorough=[dict(nmol=n, limit=l) for n in (2, 3) for l in ("weak_coupling", "strong_coupling")],
          functions=[F_AB + ":AggregateBase.get_DensityMatrix", "quantarhei/core/managers.py:eigenbasis_of.__enter__",
                     "quantarhei/core/managers.py:eigenbasis_of.__exit__",
                     "quantarhei/qm/hilbertspace/operators.py:Operator.transform"],
-         bound="dimer (thorough trimer): excitonic equilibrium requested outside any context vs inside "
+         bound="dimer (thorough trimer): excitonic (weak coupling) and site (strong coupling) equilibrium requested outside any context vs inside "
                "eigenbasis_of(H) and read outside; Hamiltonian symbolic, eigenbasis from the eigh contract "
                "(block-diagonal orthogonal S with H S = S diag(w)), T>0 symbolic",
          out="")
-def weak_coupling_basis(cx, nmol):
+def weak_coupling_basis(cx, nmol, limit):
     import quantarhei as qr
     agg = build_aggregate(cx, nmol)
     N = agg.HamOp.dim
@@ -224,10 +230,10 @@ def weak_coupling_basis(cx, nmol):
             "orthogonal matrix (ground state decoupled) and w ascending: all such H by the spectral theorem")
     ham = agg.get_Hamiltonian()
     rho_out = agg.get_DensityMatrix(condition_type="thermal_excited_state",
-                                    relaxation_theory_limit="weak_coupling", temperature=T)
+                                    relaxation_theory_limit=limit, temperature=T)
     with qr.eigenbasis_of(ham):
         rho_in = agg.get_DensityMatrix(condition_type="thermal_excited_state",
-                                       relaxation_theory_limit="weak_coupling", temperature=T)
+                                       relaxation_theory_limit=limit, temperature=T)
     a = rho_out.data
     b = rho_in.data
     cx.check_div_obligations("finite")
